@@ -215,7 +215,7 @@ class Rolling:
         if engine is not None:
             # numba is not installed: pandas raises ImportError, the code falls back
             raise ImportError("Missing optional dependency 'numba'")
-        if func is not npfuncs.np_ptp or raw is not True:
+        if getattr(func, "__wrapped__", func) is not npfuncs.np_ptp or raw is not True:
             raise Unsupported("rolling.apply(%r, raw=%r)" % (func, raw))
         return self._setup("ptp")
 
@@ -600,3 +600,9 @@ def _to_timedelta(x, unit=None):
 
 
 PD.to_timedelta = _to_timedelta
+
+
+from .ctx import guard_methods as _gm  # noqa: E402
+
+for _cls, _lab in ((Series, "pandas.Series"), (Rolling, "pandas.Rolling"), (Timestamp, "pandas.Timestamp"), (DatetimeIndex, "pandas.DatetimeIndex"), (IntIndex, "pandas.Index"), (IntSeries, "pandas.Series"), (BoolSeries, "pandas.Series"), (TimedeltaIndex, "pandas.TimedeltaIndex")):
+    _gm(_cls, _lab)
